@@ -182,6 +182,8 @@ import BGV
 -- C14
 #print axioms BGV.C14_layout
 #print axioms BGV.C14_roundtrip_records
+#print axioms BGV.C14_codec_unsigned
+#print axioms BGV.C14_codec_signed
 #print axioms BGV.C14_dir_roundtrip
 #print axioms BGV.C14_und_roundtrip
 
